@@ -11,13 +11,16 @@ def run(ctx):
                          "4 arena configurations); every callback-bearing op is re-run from the same state with a panic at each callback index "
                          "and with each dropped value panicking in Drop; distinct_nontrivial counts distinct op lines replayed on the model")
     ctx.partial += [
-        "modelled + proved (every vector, argument, oracle, set of panicking Drops): retain, dedup_by, truncate, clear, pop, pop_if, remove, "
-        "swap_remove, push, insert, extend_from_slice_clone, resize, resize_with, append, drain(+keep_rest), extract_if, into_iter, map_in_place, "
-        "drop of the owner; MutBumpVecRev: push, pop, clear, truncate, insert, remove, swap_remove, extend_from_slice_clone, resize, append, into_iter, drop; "
-        "partition (in Props/C16)",
-        "NOT modelled (checked on the real types by the exactly-once accounting oracle only, incl. a panic at every callback index): splice, "
-        "dedup_by_key, extend_from_within_clone, BumpVec::map, into_flattened, reserve/reserve_exact/shrink_to_fit; MutBumpVecRev::{pop_if, resize_with}",
-        "zero-sized element types: counting oracle on the implementation only (the slot model identifies values by id)",
+        "modelled + proved (every vector, argument, oracle, set of panicking Drops): retain, dedup_by, dedup_by_key, truncate, clear, pop, pop_if, "
+        "remove, swap_remove, push, insert, extend_from_slice_clone, extend_from_within_clone, resize, resize_with, append, drain(+keep_rest), "
+        "extract_if, into_iter, map_in_place, BumpVec::splice (any size_hint of the source, a panicking Drop inside Splice::drop), drop of the owner; "
+        "MutBumpVecRev: push, pop, pop_if, clear, truncate, insert, remove, swap_remove, extend_from_slice_clone, resize, resize_with, append, "
+        "into_iter, drop; partition (in Props/C16); history level: every finite sequence of the 18 single-vector operations "
+        "(history_drops_once, history_never_drops_twice)",
+        "zero-sized element types: counting model (Coll/Zst.lean) of Drain (as repaired) / IntoIter / truncate / split_off / merge proved "
+        "exactly-once by counts; not replayed by the driver (the implementation side is the counting oracle)",
+        "NOT modelled (checked on the real types by the exactly-once accounting oracle only, incl. a panic at every callback index): "
+        "BumpVec::map, into_flattened; splice is not part of the history-level Op type (BumpVec only)",
         "BumpBox<T> single-value routes (into_inner, leak, into_ref/into_mut) are not modelled",
     ]
     proved = prove(ctx, MODULES)
